@@ -830,11 +830,6 @@ impl State {
         // TODO: remove this and calculations below that assume deals can be slashed
         let ever_slashed = state.slash_epoch != EPOCH_UNDEFINED;
 
-        if !ever_updated {
-            // pending deal might have been removed by manual settlement or cron so we don't care if it's missing
-            self.remove_pending_deal(store, *deal_cid)?;
-        }
-
         // if the deal was ever updated, make sure it didn't happen in the future
         if ever_updated && state.last_updated_epoch > epoch {
             return Err(actor_error!(
@@ -845,8 +840,15 @@ impl State {
         }
 
         // this is a safe no-op but can happen if a storage provider calls settle_deal_payments too early
-        if deal.start_epoch > epoch {
+        // (nothing is due up to and including the start epoch, and the proposal stays pending for as long as
+        // it could still be published, so that it cannot be published again)
+        if deal.start_epoch >= epoch {
             return Ok((TokenAmount::zero(), TokenAmount::zero(), false, false));
+        }
+
+        if !ever_updated {
+            // pending deal might have been removed by manual settlement or cron so we don't care if it's missing
+            self.remove_pending_deal(store, *deal_cid)?;
         }
 
         let payment_end_epoch = if ever_slashed {
